@@ -565,7 +565,7 @@ pub fn c14(c: &Corpus, tier: &str, seed: u64) -> Vec<Report> {
             rb.evaluations += 1;
             let a = ParserOptions::new().with_trailing_commas(tc).with_unescape(un);
             let b = ParserOptions::new().with_unescape(un).with_trailing_commas(tc);
-            let c = ParserOptions { trailing_commas: tc, unescape: un };
+            let c = ParserOptions { trailing_commas: tc, unescape: un, ..ParserOptions::new() };
             let d2 = a.clone().with_trailing_commas(tc);
             let input = format!("trailing_commas={tc} unescape={un}");
             if a != b || a != c || a != d2 {
